@@ -439,6 +439,15 @@ func (p c03Proto) String() string {
 	return fmt.Sprintf("replicas=%d nodeLimit=%s existing=%d env=%s order=%d", p.replicas, map[bool]string{true: "unset", false: fmt.Sprint(p.limit)}[p.limit == 0], p.existing, p.env, p.order)
 }
 
+// c03ProtocolOnce runs every protocol scenario once with the default schedule (race pass: free-running threads).
+func c03ProtocolOnce(r *ev.Rec) {
+	c03BoundOverride = 0
+	defer func() { c03BoundOverride = -1 }()
+	c03Protocol(r)
+}
+
+var c03BoundOverride = -1
+
 func c03Protocol(r *ev.Rec) {
 	var scens []c03Proto
 	for _, rep := range []int64{1, 2} {
@@ -468,6 +477,9 @@ func c03Protocol(r *ev.Rec) {
 	bound := 1
 	if r.Tier == "thorough" {
 		bound = 2
+	}
+	if c03BoundOverride >= 0 {
+		bound = c03BoundOverride
 	}
 	r.Extra["protocol_scenarios"] = len(scens)
 	r.Extra["protocol_preemption_bound"] = bound
@@ -536,6 +548,7 @@ func c03Protocol(r *ev.Rec) {
 			}
 			var viol []c01Violation
 			th := explore.NewThreads(run)
+			th.Free = c03Free
 			w.Client.Sched = th.Yield
 			// ... and right after a NodeClaim write returned: the window in which the API already has the object while the
 			// writer has not yet updated its in-memory bookkeeping (cluster cache, reservation) is a scheduling point too
@@ -544,7 +557,10 @@ func c03Protocol(r *ev.Rec) {
 					th.Yield("after " + label)
 				}
 			}
-			taken := w.AttachFaults(run, func(c *world.Call) bool { return c.Verb == "create" && c.Kind == "NodeClaim" })
+			taken := &[]world.Injected{}
+			if !c03Free {
+				taken = w.AttachFaults(run, func(c *world.Call) bool { return c.Verb == "create" && c.Kind == "NodeClaim" })
+			}
 			th.OnPoint = func() {
 				if lim := limitNow(); lim > 0 {
 					if total, _ := countNC(); int64(total) > lim {
@@ -574,6 +590,10 @@ func c03Protocol(r *ev.Rec) {
 				sort.Strings(keys)
 				for _, k := range keys {
 					th.Yield("informer delivers NodeClaim/" + k)
+					if c03Free {
+						_ = inf.DeliverLoud("NodeClaim", "", k) // (Quiet is a plain counter: not touched while threads run freely)
+						continue
+					}
 					w.Client.Quiet++
 					_ = inf.Deliver("NodeClaim", "", k)
 					w.Client.Quiet--
@@ -725,6 +745,9 @@ func c03Protocol(r *ev.Rec) {
 }
 
 var c03Debug func(sc string, choices []int, trace []string)
+
+// c03Free: the protocol threads run as free goroutines (race-detector pass only)
+var c03Free bool
 
 func firstLines(s string, n int) string {
 	lines := strings.Split(s, "\n")
